@@ -11,6 +11,10 @@ type Tag struct { //nolint:govet
 	Name              TagName
 	Title             string
 	Description       *string
+
+	// declared is true for a tag defined by the TAG directive (false for a tag
+	// created automatically from a path).
+	declared bool
 }
 
 var _ json.Marshaler = &Tags{}
